@@ -11,7 +11,7 @@ _TRANSPARENT_LAST = {
     "deref": 0, "deref_mut": 0, "borrow": 0, "as_slice": 0, "as_bytes": 0, "to_vec": 0, "into_string": 0,
     "unchecked": 0, "u128": 0, "new": 0, "unwrap": 0, "expect": 0, "must_use": 0, "into_iter": 0,
     "iter": 0, "iter_mut": 0, "as_mut": 0, "cloned": 0, "copied": 0, "into_boxed_slice": 0, "into_vec": 0,
-    "as_mut_slice": 0, "map_err": 0, "ok_or": 0, "ok_or_else": 0,
+    "as_mut_slice": 0, "map_err": 0, "ok_or": 0, "ok_or_else": 0, "each_ref": 0, "each_mut": 0,
     # Response builder steps that add no message: the response (and its message list) flows through
     "add_attribute": 0, "add_attributes": 0, "add_event": 0, "add_events": 0, "set_data": 0,
 }
@@ -63,6 +63,8 @@ def transparent_arg(callee):
         return 0 if "Uint128" in g else None
     if name in ("add_attribute", "add_attributes", "add_event", "add_events", "set_data"):
         return 0 if re.search(r"cosmwasm_std::\S*Response", g) else None
+    if name in ("each_ref", "each_mut"):
+        return 0 if re.search(r"array::(<impl \[T; N\]>::)?each_(ref|mut)$", g) else None        # [T; N] -> [&T; N]: the same elements
     return _TRANSPARENT_LAST[name]
 
 
@@ -109,6 +111,19 @@ WRAPPERS = [
 _CTX_MEMO = {}
 
 
+def _is_stored_record_type(P, ty):
+    """ty is the value type of a storage Item of one of the contracts (`Item<PairInfoRaw>`, `Item<Config>`)."""
+    idx = getattr(P, "_stored_types", None)
+    if idx is None:
+        idx = set()
+        for c in P.consts.values():
+            m = re.match(r"^cw_storage_plus::(?:item::)?Item<(?:'\w+, )?(.*)>$", c.get("ty", ""))
+            if m and c["path"].startswith(("halo_pair::", "halo_factory::", "halo_router::")) and "::tests::" not in c["path"]:
+                idx.add(m.group(1))
+        P._stored_types = idx
+    return ty in idx
+
+
 def context_param_args(P, fn, i):
     """Parameter i of workspace function fn has a struct type defined in one of the contract crates (a context / bundle
     object such as `QueryCtx { deps, config }` or the stored `Config` handed down by reference) and fn is only called from
@@ -124,10 +139,16 @@ def context_param_args(P, fn, i):
         a = P.adts.get(ty) or P.adts.get(re.sub(r"<.*$", "", ty))
         # a *context* bundle carries a piece of the execution environment (deps / env / info / querier / storage); a bundle of
         # message fields (`SwapOptions { belief_price, max_spread, to }`) differs per call site and keeps its own identity
-        if a is not None and a["kind"] == "struct" and a["path"].startswith(("halo_pair::", "halo_factory::", "halo_router::")) and \
-                any(re.search(r"cosmwasm_std::(\S*::)?(Deps|DepsMut|Env|MessageInfo|QuerierWrapper)\b|dyn cosmwasm_std::(\S*::)?(Storage|Api)", f_["ty"]) for f_ in a["variants"][0]["fields"]):
+        is_ctx = a is not None and a["kind"] == "struct" and a["path"].startswith(("halo_pair::", "halo_factory::", "halo_router::")) and \
+            any(re.search(r"cosmwasm_std::(\S*::)?(Deps|DepsMut|Env|MessageInfo|QuerierWrapper)\b|dyn cosmwasm_std::(\S*::)?(Storage|Api)", f_["ty"]) for f_ in a["variants"][0]["fields"])
+        # a stored record handed down by reference (`withdraw_liquidity(.., pair_info: &PairInfoRaw)`, loaded by the single
+        # caller): a free function with exactly one production call site, not a role function the rules anchor on
+        is_rec = (not is_ctx and a is not None and a["kind"] == "struct" and fn.kind == "fn" and fn.path not in getattr(P, "_role_fns", set()) and
+                  fn.crate in ("halo_pair", "halo_factory", "halo_router") and
+                  fn.body.locals[i + 1]["ty"].startswith("&") and _is_stored_record_type(P, a["path"]))
+        if is_ctx or is_rec:
             sites = [(c, cb) for c, cb in P.callers(fn.path) if "::tests::" not in c.path and c.body is not None and c.path != fn.path]
-            if 1 <= len(sites) <= 6:
+            if 1 <= len(sites) <= (6 if is_ctx else 1):
                 vals = []
                 for c, cb in sites:
                     cv = P.val_call(c, c.body, cb)
@@ -696,6 +717,30 @@ def check_helper_multi(P, g):
     return _CHECK_MULTI.get((id(P), g.path))
 
 
+def forwarded_check_conditions(P, fn, b, v):
+    """A success exit that forwards a check helper's result (`ensure(cond, err)` as the tail expression): the exit is Ok
+    exactly when the helper's condition(s) pass.  Returns them as control-condition dicts attached to block b (else [])."""
+    if v[0] != "call" or not isinstance(v[3], str):
+        return []
+    g = P.fn(v[3]) or P.fn(generic_path(v[3]))
+    if g is None or g.body is None:
+        return []
+    chs = check_helper_multi(P, g)
+    if not chs:
+        return []
+    mapping = {("param", g.path, i): a for i, a in enumerate(v[4])}
+    out = []
+    for cond, errs_when_true in chs:
+        if cond[0] == "boolparam":
+            c2 = cond_of_value(v[4][cond[1]], b)
+            neg = _cond_negated(c2)
+            out.append({"sw": b, "cond": c2, "allowed": [(not errs_when_true) != neg], "ty": None})
+        elif cond[0] == "cmp":
+            c2 = ("cmp", cond[1], tuple(subst_params(a, mapping) for a in cond[2]), False, b, cond[5] if len(cond) > 5 else None)
+            out.append({"sw": b, "cond": c2, "allowed": [(not errs_when_true) != bool(cond[3])], "ty": None})
+    return out
+
+
 def rejects_via_check_helper(P, v):
     """v (an error exit value) is the error propagated out of a one-condition check helper (`ensure(cond, err)?`)."""
     for x in walk(v):
@@ -924,6 +969,43 @@ def storage_accessor(P, f):
             _storage_accessor(f) and pure_helper(P, f))
 
 
+_WACC_MEMO = {}
+
+
+def storage_write_accessor(P, f):
+    """f is a thin write accessor (`fn save_pair_decimals(storage: &mut dyn Storage, key, record, decimals) -> StdResult<()>`):
+    a loop-free workspace free function taking the storage mutably whose only effect is ONE storage write; it builds no
+    message and calls no other effectful workspace function.  The write is attributed to its call sites."""
+    key = (id(P), f.path)
+    if key in _WACC_MEMO:
+        return _WACC_MEMO[key]
+    _WACC_MEMO[key] = False
+    ok = (f.body is not None and f.kind == "fn" and not f.derived and "::tests::" not in f.path and len(f.body.blocks) <= 16 and
+          f.crate in ("halo_pair", "halo_factory", "halo_router") and
+          re.search(r"&(?:'\w+ )?mut (?:\()?dyn cosmwasm_std::Storage", f.sig or "") is not None and not f.body.back_edges())
+    n_w = 0
+    if ok:
+        for b, blk in enumerate(f.body.blocks):
+            if blk["cleanup"]:
+                continue
+            for st in blk["stmts"]:
+                if st["k"] == "assign" and st["rv"]["k"] == "agg" and st["rv"].get("agg") == "adt" and MSG_ADT.match(st["rv"]["adt"]):
+                    ok = False
+            t_ = blk["term"]
+            if t_["k"] == "call":
+                p, fr = callee_of(t_)
+                g = generic_path(p) if p else ""
+                if p and _STORE_WRITE.match(g):
+                    n_w += 1
+                elif p and g.startswith(("halo_pair::", "halo_factory::", "halo_router::", "haloswap::")):
+                    h = P.fn(p) or P.fn(g)
+                    if h is not None and h.body is not None and not pure_helper(P, h):
+                        ok = False
+    res = bool(ok and n_w == 1)
+    _WACC_MEMO[key] = res
+    return res
+
+
 def storage_sites(P, fn, writes=True, _own=False):
     """[(bb, op, item_path, call value)] ; item_path from the promoted const the method is applied to.
     Reads made through a storage accessor appear at the accessor's call sites, not inside the accessor."""
@@ -931,10 +1013,20 @@ def storage_sites(P, fn, writes=True, _own=False):
     R = Roots(P)
     if not writes and not _own and storage_accessor(P, fn) and any("::tests::" not in c.path for c, _cb in P.callers(fn.path)):
         return out
+    if writes and not _own and storage_write_accessor(P, fn) and any("::tests::" not in c.path for c, _cb in P.callers(fn.path)):
+        return out
     for b, p, fr, t in P.calls(fn):
         if p is None:
             continue
         g = generic_path(p)
+        if writes:
+            af = P.fn(p) or P.fn(g)
+            if af is not None and af.path != fn.path and storage_write_accessor(P, af):
+                cv_ = P.val_call(fn, fn.body, b)
+                mapping = {("param", af.path, i): a for i, a in enumerate(cv_[4])}
+                for (gb, op, item, lv) in storage_sites(P, af, writes=True, _own=True):
+                    out.append((b, op, item, subst_params(lv, mapping)))
+                continue
         if not writes:
             af = P.fn(p) or P.fn(g)
             if af is not None and af.path != fn.path and storage_accessor(P, af):
@@ -1025,12 +1117,60 @@ def calls_in(P, fn, blocks):
     return [(b, p, fr, t) for (b, p, fr, t) in P.calls(fn) if b in blocks]
 
 
+_VTP_MEMO = {}
+
+
+def _validated_text_param(fn, ty_pat):
+    P = CURRENT_P[0]
+    if P is None or fn.body is None:
+        return None
+    key = (id(P), fn.path, ty_pat)
+    if key in _VTP_MEMO:
+        return _VTP_MEMO[key]
+    _VTP_MEMO[key] = None
+    hits = []
+    for i in range(1, fn.body.arg_count + 1):
+        ty = fn.body.locals[i]["ty"]
+        as_addr = ty.replace("std::string::String", "cosmwasm_std::Addr").replace("alloc::string::String", "cosmwasm_std::Addr")
+        if as_addr != ty and (re.search(ty_pat, as_addr) or (as_addr.startswith("&") and re.search(ty_pat, strip_ty(as_addr)))):
+            hits.append(i - 1)
+    res = None
+    if len(hits) == 1:
+        k = hits[0]
+        R = Roots(P)
+        pre = "valid(P:%s#%d" % (fn.path, k)
+        seen = False
+        for b, p, fr, t in P.calls(fn):
+            cv = P.val_call(fn, fn.body, b)
+            if cv[0] != "call":
+                continue
+            for a in cv[4]:
+                try:
+                    if any(r.startswith(pre) or ("=" + pre) in r or ("(" + pre) in r for r in R.roots(a)):
+                        seen = True
+                        break
+                except RecursionError:
+                    pass
+            if seen:
+                break
+        if seen:
+            res = VParam(k, "validated")
+    _VTP_MEMO[key] = res
+    return res
+
+
 def param_index_of_type(fn, ty_pat):
     """0-based index of the unique parameter whose type matches the regex."""
     hits = [i - 1 for i in range(1, fn.body.arg_count + 1) if re.search(ty_pat, fn.body.locals[i]["ty"])]
     if not hits:
         # the same parameter taken by reference (`&Asset`, `&[Uint128; 2]`): references are transparent in the value graph
         hits = [i - 1 for i in range(1, fn.body.arg_count + 1) if fn.body.locals[i]["ty"].startswith("&") and re.search(ty_pat, strip_ty(fn.body.locals[i]["ty"]))]
+    if not hits and re.search(r"Addr", ty_pat) and not re.search(r"Canonical|MessageInfo|Env", ty_pat):
+        # an address taken as text and validated by the function itself (`to: Option<String>` + `addr_validate` as the
+        # first thing the handler does) is the same input as a validated `Option<Addr>` parameter
+        vp = _validated_text_param(fn, ty_pat)
+        if vp is not None:
+            return vp
     if len(hits) > 1 and not re.search(r"MessageInfo|Env", ty_pat):
         # parameters that are pieces of the transaction's MessageInfo / Env (`contract_addr: Addr` = env.contract.address)
         # are located through those types, not as parameters of their own
@@ -1077,6 +1217,10 @@ def param_accesses(P, fn, ty_pat):
     out = [ParamAccess(fn, i - 1) for i in range(1, fn.body.arg_count + 1) if re.search(ty_pat, fn.body.locals[i]["ty"])]
     if out:
         return out
+    if re.search(r"Addr", ty_pat) and not re.search(r"Canonical", ty_pat):
+        vp = _validated_text_param(fn, ty_pat)
+        if vp is not None:
+            return [ParamAccess(fn, vp)]
     for i in range(1, fn.body.arg_count + 1):
         a = P.adts.get(strip_ty(fn.body.locals[i]["ty"]))
         if a is None or a["kind"] != "struct" or not a["path"].startswith(("halo_pair::", "halo_factory::", "halo_router::", "haloswap::")):
@@ -1231,7 +1375,8 @@ def control_conditions(P, fn, b, expand_helpers=True, _depth=0):
                             g = P.fn(cvs[0][2])
                             call_args = (call_args[0],) + tuple(x for _, x in tup[3])
                             is_closure = g is not None and g.body is not None and not g.body.back_edges() and len(g.body.blocks) <= 24
-                    if g is not None and g.body is not None and ((is_closure and g.body.locals[0]["ty"] == "bool") or (pure_helper(P, g) and (g.sig or "").endswith("-> bool"))):
+                    if g is not None and g.body is not None and ((is_closure and g.body.locals[0]["ty"] == "bool") or
+                                                                  ((pure_helper(P, g) or _bool_predicate(P, g)) and (g.sig or "").endswith("-> bool"))):
                         sub = truth_conditions(P, g, None, 0, want, _depth + 1)
                         if sub is not None:
                             mapping = {("param", g.path, i): a for i, a in enumerate(call_args) if not (is_closure and i == 0)}
@@ -1301,6 +1446,14 @@ def control_conditions(P, fn, b, expand_helpers=True, _depth=0):
                 r["flag_at"] = g.flag_at
         res = res + extra
     return res
+
+
+def _bool_predicate(P, g):
+    """A small public predicate method of a workspace type (`AssetInfoRaw::is_native_denom(&self, denom) -> bool`) that is not
+    one of the role functions verified by their own lemmas: loop-free, effect-free — its single true path is stated in place."""
+    return (g.kind == "assoc_fn" and g.impl_trait is None and not g.derived and g.body is not None and len(g.body.blocks) <= 16 and
+            not g.body.back_edges() and g.crate in ("halo_pair", "halo_factory", "halo_router", "haloswap") and
+            g.path not in getattr(P, "_role_fns", set()) and CMP_ALIASES.get(g.path) is None and _effect_free(P, g, 0))
 
 
 def truth_conditions(P, fn, loc, local, want, depth=0):
@@ -2198,6 +2351,8 @@ class VParam(int):
 
 def vparam_root(fn, vp, path):
     P = CURRENT_P[0]
+    if vp.kind == "validated":
+        return "valid(%s)" % param_root(fn, int(vp), re.sub(r"^~Some(\.0)?", "", path))
     if vp.kind == "bundle":
         if P is not None:
             rs = Roots(P).roots(proj(("param", fn.path, int(vp)), ("f", vp.field)), _parse_suffix(path))
@@ -2212,8 +2367,8 @@ def vparam_root(fn, vp, path):
 
 def vparam_arg(cv, vp, suffix=""):
     """The argument value a call passes for a type-located handler input (projected by `suffix`, e.g. '.sender')."""
-    if not isinstance(vp, VParam):
-        v = cv[4][vp]
+    if not isinstance(vp, VParam) or vp.kind == "validated":
+        v = cv[4][int(vp)]
         for e in _parse_suffix(suffix):
             v = proj(v, e)
         return v
